@@ -53,7 +53,7 @@ def refVerdict (st : State) (doc : Spec.Doc) (api : Serve.ApiM) (cors : Bool) (c
         else "ok"
       let a := match Ref.refAuth doc o cfg req with
         | .pub => "pub"
-        | .ran s t => s!"ran({s}:{t})"
+        | .ranOneOf acc => "ran{" ++ ",".intercalate (acc.map (fun (s, t) => toHex (s ++ ":" ++ t))) ++ "}"
         | .denied => "401"
       s!"op({m} {tpl})|{a}|{pp}"
 
